@@ -232,3 +232,26 @@ PROPS["C15"] = dict(
 )
 
 NOT_APPLICABLE = {}
+
+PROPS["C06"] = dict(
+    lean_modules=["QuaiVerif.Props.C06"],
+    areas=[dict(name="c06", n_quick=4, n_thorough=40, seeds_thorough=3, n_search=12, timeout=3000)],
+    rule="a case is one 40-block history of a real zone node (core.Slice, blake3pow, blocks assembled by its own worker and mined by the harness): Quai "
+         "transfers, contract deployment and storage writes, Qi spends (1-3 inputs, musig), Quai->Qi conversions, lockup-contract claims incl. reverting "
+         "ones through the real tx pool; region blocks at which the harness, playing the dominant chains, hands over inbound ETXs (own coinbase / conversion / "
+         "redemption ETXs returning, Quai and Qi coinbases with lock bytes 0-3 plain or to the lockup contract with delegate, conversions both ways, "
+         "conversion reverts, transfers from other zones); rescaled horizons so lockups mature, epochs roll and trimming runs; 20% of cases stay in the "
+         "pre-TimeToStartTx regime with ETX batches of 40-160. Each block is replayed on a leveldb node with snapshots and address index and on a pebble node "
+         "under GOMAXPROCS=1; after every block the 'ut'/'cl' key spaces of all three databases are scanned. Every case non-trivial; distinct by sub-seed",
+    level_text="'After every well-formed history the commitment is exactly the database content and the set size its cardinality' (invariant by induction over "
+               "blocks) and 'the accumulator is insensitive to the order of a block's additions and removals' (permutation invariance) are Lean theorems over "
+               "the ledger model; the model is fed each real block's own bookkeeping (undo records) and its predicted set size / consistency is compared with the "
+               "header and with an independent scan + MuHash of the database; determinism across backends, snapshot/trie reads, GOMAXPROCS and cache warmth is "
+               "observed (replicas must accept every block and hold identical ledgers and receipts), not proved.",
+    level_note="PARTIAL: determinism over schedules / backends / caches is sampled by the replicas (T3), the theorem covers the accumulator's order-insensitivity only. "
+               "Block processing itself (which entries a block creates) is taken from the implementation's undo records; the per-transaction rules are C01/C13. "
+               "Protocol horizons are rescaled (params variables) and the harness plays region/prime: dom-side ETX validation is out of scope. Known finding: an "
+               "output spent in the block that trims it is removed twice from the commitment (C06_counterexample_spent_and_trimmed).",
+    assumptions=["MuHash Add/Remove form an abelian group action with negligible collisions (crypto/multiset is not modelled beyond that)",
+                 "a block's undo records (created keys, spent, trimmed, created/deleted lockups) list what Process fed to Finalize"],
+)
